@@ -6,6 +6,10 @@
 //	    child process) are sent to the REAL session.refLoop; after every event its fileRef map and the Remove
 //	    calls that reached the storage must equal the RefLoop model's state and output (Go mirror on every
 //	    sequence, the Coq model itself on a sample that always contains every disagreement).
+//	    The REAL version layer (newSession, create/recover, commit incl. failing commits, version/release, close,
+//	    reopen; its loop replaced by a recorder) is driven with random histories; per session, the events it sent
+//	    must equal one by one the events of the version-layer model (Conc/VersionLayer.v) for the same operations
+//	    (Go mirror vlmodel.go on every history; the Coq model on the KVL cases) and must satisfy env_ok.
 //	(P) on the real loop: no table of a referenced, unreleased version is ever removed; once all versions but the
 //	    current one are released, removed = added minus current, each once, and the counters hold exactly the
 //	    current tables.  On the real DB over vstor: pinned iterators/snapshots across N version changes keep
@@ -67,32 +71,46 @@ func main() {
 	res.WriteCases("From GL Require Import Conc.RefLoop Conc.VersionLayer Corr.C07Run.", "c07case", "mismatches", spread(kcases, 16), 16)
 }
 
-// spread reorders the cases so that the few very long ones land in different shards of WriteCases.
+// spread reorders the cases so that the shards of WriteCases (consecutive runs of equal length) carry about the
+// same amount of text: longest first, each into the lightest shard that still has room.
 func spread(cases []string, shards int) []string {
 	if len(cases) < 2*shards {
 		return cases
 	}
 	per := (len(cases) + shards - 1) / shards
-	var long, short []string
-	for _, c := range cases {
-		if len(c) > 50000 {
-			long = append(long, c)
-		} else {
-			short = append(short, c)
+	idx := make([]int, len(cases))
+	for i := range idx {
+		idx[i] = i
+	}
+	sort.SliceStable(idx, func(a, b int) bool { return len(cases[idx[a]]) > len(cases[idx[b]]) })
+	bins := make([][]int, shards)
+	size := make([]int, shards)
+	// the last shard may be shorter: shards*per >= len(cases)
+	room := func(b int) int {
+		full := per
+		if lo := b * per; lo+per > len(cases) {
+			full = len(cases) - lo
+			if full < 0 {
+				full = 0
+			}
 		}
+		return full - len(bins[b])
+	}
+	for _, i := range idx {
+		best := -1
+		for b := 0; b < shards; b++ {
+			if room(b) > 0 && (best < 0 || size[b] < size[best]) {
+				best = b
+			}
+		}
+		bins[best] = append(bins[best], i)
+		size[best] += len(cases[i])
 	}
 	out := make([]string, 0, len(cases))
-	li, si := 0, 0
-	for len(out) < len(cases) {
-		if len(out)%per == 0 && li < len(long) {
-			out = append(out, long[li])
-			li++
-		} else if si < len(short) {
-			out = append(out, short[si])
-			si++
-		} else {
-			out = append(out, long[li])
-			li++
+	for b := 0; b < shards; b++ {
+		sort.Ints(bins[b])
+		for _, i := range bins[b] {
+			out = append(out, cases[i])
 		}
 	}
 	return out
@@ -428,7 +446,7 @@ func shrinkLoop(c SeqCase) *SeqCase {
 func vlPart(a vlib.Args, res *vlib.Result) []string {
 	n, kcap, kbytes := 400, 4000, 3000000
 	if a.Thorough() {
-		n, kcap, kbytes = 30000, 4000, 3400000
+		n, kcap, kbytes = 30000, 4000, 3000000
 	}
 	root := vlib.NewRNG(a.Seed ^ 0x7e1)
 	jobs := make(chan int)
@@ -495,7 +513,7 @@ func vlPart(a vlib.Args, res *vlib.Result) []string {
 	// Open fails there); the model says the recovered tables are then never counted and the loop panics when one
 	// of them is deleted. The real layer must send exactly what the model sends, and the loop model must panic.
 	probe := VLCase{Seed: a.Seed, Probe: true, Ops: []VLOp{{Kind: "commit", Add: 2}, {Kind: "reopen"},
-		{Kind: "failsw", Add: 1}, {Kind: "commit", Add: 1}, {Kind: "commit", Del: 1}}}
+		{Kind: "failsw", Add: 1}, {Kind: "commit", Add: 1}, {Kind: "commit", Del: 3}}}
 	if d, sessions, _ := runVLCase(probe); d != "" {
 		res.Violate("version layer (directed, failed-but-switched first commit): "+d, replayFile{VL: &probe})
 	} else if len(sessions) == 2 && !sessions[1].Disc {
